@@ -315,3 +315,46 @@ Proof.
   destruct (a_run_acct l (a_init c pf v)) as (pss & rest & H1 & H2).
   exists pss, rest. split; [exact H1|]. cbn [a_init slots] in H2. rewrite held_repeat, app_nil_r in H2. exact H2.
 Qed.
+
+(* ---------------------------------------------------------------- a checker for never_late (examples) *)
+Definition late_b (o : option Z) (p : pkt) : bool :=
+  match o with
+  | Some o => (uint16_add o (- pseq p) <? uint16_add (pseq p) (- o)) && (MAX_MISORDER <=? uint16_add o (- pseq p))
+  | None => false
+  end.
+
+Fixpoint nl_b (s : jb) (l : list pkt) : bool :=
+  match l with
+  | [] => true
+  | p :: l' => negb (late_b (origin s) p) &&
+               match add s p with Ok (s', _) => nl_b s' l' | _ => false end
+  end.
+
+Lemma late_b_spec o p : late_b o p = true <-> late_at o p.
+Proof.
+  unfold late_b, late_at. destruct o as [o|]; [|split; [discriminate|intros []]].
+  rewrite andb_true_iff, Z.ltb_lt, Z.leb_le. reflexivity.
+Qed.
+
+Lemma nl_b_sound l1 : forall s0 l p l2 s outs,
+  nl_b s0 l = true -> l = l1 ++ p :: l2 -> run s0 l1 = Ok (s, outs) -> ~ late_at (origin s) p.
+Proof.
+  induction l1 as [|a l1 IH]; intros s0 l p l2 s outs Hb El ER; subst l; cbn [app nl_b] in Hb;
+    apply andb_true_iff in Hb; destruct Hb as [Hb1 Hb2].
+  - cbn [run] in ER. injection ER as <- <-. intros HL. apply late_b_spec in HL. rewrite HL in Hb1. discriminate.
+  - cbn [run] in ER. destruct (add s0 a) as [[s1 o1]| | |]; try discriminate. cbn [bind fst snd] in ER.
+    destruct (run s1 l1) as [[s2 o2]| | |] eqn:E1; try discriminate. cbn [bind fst snd] in ER.
+    injection ER as <- <-. exact (IH s1 _ p l2 s2 o2 Hb2 eq_refl E1).
+Qed.
+
+Lemma never_late_check c pf v l :
+  match create c pf v with Ok s0 => nl_b s0 l | _ => false end = true -> never_late c pf v l.
+Proof.
+  intros Hb l1 p l2 s outs El (s0 & E0 & ER). rewrite E0 in Hb. exact (nl_b_sound l1 s0 l p l2 s outs Hb El ER).
+Qed.
+
+Lemma reaches_check c pf v l s outs :
+  bind (create c pf v) (fun s0 => run s0 l) = Ok (s, outs) -> reaches c pf v l s outs.
+Proof.
+  intros H. unfold reaches. destruct (create c pf v) as [s0| | |] eqn:E0; try discriminate. exists s0. split; [reflexivity|exact H].
+Qed.
